@@ -62,13 +62,18 @@ def op_tables(tier, rng):
     return out, n_exh
 
 
-def grammar_text(table, order):
+def grammar_text(table, order, rule_meta=None):
     alts = []
     for i, (prio, left) in enumerate(table):
         alts.append('E "%s" E {%s, %d}' % (OPS[i], "left" if left else "right", prio))
     alts += ['"(" E ")"', '"n"']
     alts = [alts[i] for i in order]
-    return "E: " + " | ".join(alts) + ";\n"
+    head = "E" if rule_meta is None else "E {%s}" % rule_meta
+    return head + ": " + " | ".join(alts) + ";\n"
+
+
+# priority values matter as values too: 0, small, beyond CPython's small-int cache, large
+PRIO_MAPS = [lambda l: l * 3, lambda l: l - 1, lambda l: 250 + l * 5, lambda l: 1000 * l + 7]
 
 
 def expressions(k, m, rng, cap):
@@ -120,11 +125,19 @@ def run_unit(u):
     st = res["stats"]
     if u["kind"] == "noop":
         return run_noop(u, res, rng)
-    for table in u["tables"]:
-        k = len(table)
+    for ti, table0 in enumerate(u["tables"]):
+        k = len(table0)
         order = list(range(k + 2))
         rng.shuffle(order)
-        gtxt = grammar_text(table, order)
+        # same table under another numbering of the priority levels (order preserving)
+        levels = sorted({pr for pr, _ in table0})
+        pm = PRIO_MAPS[ti % len(PRIO_MAPS)]
+        table = [(pm(levels.index(pr) + 1), lf) for pr, lf in table0]
+        # every production declares its own priority/associativity; a rule-level default must not override it
+        rule_meta = None
+        if ti % 3 == 1:
+            rule_meta = "%s, %d" % (rng.choice(["left", "right"]), rng.choice([pr for pr, _ in table] + [5]))
+        gtxt = grammar_text(table, order, rule_meta)
         opmap = {OPS[i]: i for i in range(k)}
         g = Grammar.from_string(gtxt)
         num = Numbering(g)
